@@ -230,6 +230,8 @@ TABLE = {
         ("alias-constant-encoding", IO, "    return ListOfDicts.read_json(path,\n                                 encoding=encoding,", "    return ListOfDicts.read_json(path,\n                                 encoding=\"utf-8\",", V, "FWD-alias"),
         ("read_csv-request-order-names", LO, "                colnames = [x for x in colnames if x in keys]", "                colnames = keys", V, "TNT-order"),
         ("from_json-columns-ignored", DF, "        if columns:\n            keys = [x for x in keys if x in columns]\n", "", V, "FWD-live"),
+        ("read_csv-restriction-handed-to-parser-before-rename (D37 reverted)", DF, "include_columns=columns if header else []))", "include_columns=columns))", V, "RESTR-names"),
+        ("read_csv-no-select-after-rename", DF, "            if columns:\n                table = table.select(columns)\n        return cls.from_arrow(table, dtypes=dtypes)", "        return cls.from_arrow(table, dtypes=dtypes)", V, None),
         ("geojson-validates-before-geometry", GE, "        if columns:\n            data = {k: v for k, v in data.items() if k in columns}",
          "        if columns:\n            missing = [x for x in columns if x not in data]\n            if missing:\n                raise KeyError(missing)\n            data = {k: v for k, v in data.items() if k in columns}", V, "RESTR-raise"),
         ("geojson-validates-knowing-geometry", GE, "        if columns:\n            data = {k: v for k, v in data.items() if k in columns}",
